@@ -26,6 +26,7 @@ DoneHoldNoPosition(P) == \A i \in 1..Len(P.flows) : Done(P.flows[i]) => P.flows[
 RefsExist(P) == \A i \in 1..Len(P.flows) : Listening(P.flows[i]) =>
                    LET f == P.flows[i] IN
                    /\ Range(f.actions) \subseteq ActUids(P)
+                   /\ Range(f.scope_actions) \subseteq ActUids(P)          \* the actions recorded in its open scopes (looked up when a scope is left)
                    /\ Range(f.children) \subseteq FlowUids(P)
                    /\ (f.parent # "" => f.parent \in FlowUids(P))
 (* the waiting statements a from-scratch scan of all running flows finds *)
